@@ -58,7 +58,7 @@ def evaluate(mode: str, items, extra_fn=None, shards: int = 8, impl_fn=None):
     return recs
 
 
-TIE_EXCUSES = {"value": False}   # set by properties whose predicate itself rounds (C03, C06, C08)
+TIE_EXCUSES = {"value": False, "clauses": None}   # set by properties whose predicate itself rounds (C03, C06, C08; C05 for its clause 8 only)
 
 
 def classify(rec):
@@ -69,7 +69,7 @@ def classify(rec):
     if "bad" in r:
         return "harness"
     if r.get("holds") == "0":
-        if TIE_EXCUSES["value"] and r.get("tie") == "1":
+        if TIE_EXCUSES["value"] and r.get("tie") == "1" and (TIE_EXCUSES.get("clauses") is None or r.get("clause") in TIE_EXCUSES["clauses"]):
             # the predicate rounds exactly where binary64 lands a hair beside the tie: outside the compared domain
             return "tie"
         return "holds"
